@@ -341,7 +341,6 @@ Proof.
   - assert (vls' = vls) by congruence. subst. exists vl. repeat split; auto using incl_refl.
   - assert (Hn' : keys_nodup t) by (unfold keys_nodup in *; simpl in Hn; inversion Hn; auto).
     assert (Hv : ~ In v (map fst t)) by (unfold keys_nodup in Hn; simpl in Hn; inversion Hn; auto).
-    assert (Keep : forall vlsx, discard_all c vls t = (vlsx, d) \/ True -> True) by auto.
     (* the three ways an element leaves `vls` untouched are handled by one helper *)
     assert (Skip : forall vlsx dx, discard_all c vls t = (vlsx, dx) ->
       exists vl', get_vl vlsx w = Some vl' /\ vl_data vl' = vl_data vl /\
